@@ -29,6 +29,8 @@ def run(ctx):
     if ctx.tier == 'thorough':
         proofs_ok = ctx.leanchecker('Scalibr.Properties.C18') and proofs_ok
     n = {'quick': 20000, 'thorough': 200000}[ctx.tier]
+    if ctx.fingerprints(['guidedremediation/internal/vulns/vulns.go:IsAffected,VKToPackage']):
+        n *= 4
 
     def nontrivial(case, fi, fm):
         t = case.split(' ')
